@@ -44,8 +44,8 @@ theorem addRaw_wrel (K : Kern) (pool : Pool) (s : State) (a0 a1 : Rat) (lo up : 
     all_goals first
       | exact hk
       | skip
-    rename_i h1 _ _ h2
-    exact has_debit h2 _ (Or.inl (has_debit h1 _ (Or.inl hk)))
+    rename_i h2
+    exact has_debit2 h2 _ (Or.inl hk)
   · rcases addRaw_post K pool s a0 a1 lo up sq with ⟨_, _, h⟩ | ⟨_, h⟩
     · rw [h]; exact Or.inl ‹_›
     · exact Or.inr h
